@@ -113,6 +113,8 @@ func c01Main(rc *RunCtx) {
 	c := rc.priv.(*c01cfg)
 	w := newW1(rc)
 	c.w = w
+	rc.StrictBufs = true
+	w.CheckFrames = c.kind.stream() || c.kind == TkUDP // what the server receives must be some caller's intact query
 	plan := func(sc *simnet.Conn, nth int, call *Call, wid uint16) Action {
 		a := Action{}
 		if simrt.Choose(100) < c.pDelay {
